@@ -1,4 +1,150 @@
+//! HTTP service under test (C18): starts the REAL `dmntk_server::start_server` on a loopback port inside
+//! this driver process and keeps it alive while the Python side talks HTTP to it.
+//!
+//! {op:"serve", host:"127.0.0.1", port:0|N, ready_file, stop_file, panic_file, max_seconds}
+//!   * port 0: a free port is found by binding 127.0.0.1:0 first;
+//!   * when the service accepts connections, `ready_file` is written: {"port":N,"pid":P,"workers":W};
+//!   * every panic of any thread while serving is appended (one JSON line) to `panic_file` - the panic
+//!     hook of main.rs stays installed and is chained;
+//!   * the op returns when `stop_file` exists, when `max_seconds` elapsed or when the parent process
+//!     went away (then the whole process exits) -> {"port","stopped":"stop-file"|"deadline"|"server-ended",
+//!     "server_result", "panics":[..]}.
+//! The server cannot be stopped through its public API; it dies with the driver process, therefore
+//! the Python side gives every `serve` case its own shard.
+
 use serde_json::{json, Value as J};
-pub fn op_serve(_case: &J) -> J {
-  json!({"harness_error": "not implemented"})
+use std::io::Write;
+use std::net::{TcpListener, TcpStream};
+use std::sync::atomic::{AtomicBool, Ordering};
+use std::sync::{Arc, Mutex, Once};
+use std::time::{Duration, Instant};
+
+static HOOK: Once = Once::new();
+static PANICS: Mutex<Vec<J>> = Mutex::new(Vec::new());
+static PANIC_FILE: Mutex<Option<String>> = Mutex::new(None);
+
+fn install_hook() {
+  HOOK.call_once(|| {
+    let previous = std::panic::take_hook();
+    std::panic::set_hook(Box::new(move |info| {
+      let msg = if let Some(s) = info.payload().downcast_ref::<&str>() {
+        s.to_string()
+      } else if let Some(s) = info.payload().downcast_ref::<String>() {
+        s.clone()
+      } else {
+        "<non-string panic payload>".to_string()
+      };
+      let loc = info.location().map(|l| format!("{}:{}", l.file(), l.line())).unwrap_or_default();
+      let thread = std::thread::current().name().unwrap_or("").to_string();
+      let rec = json!({"msg": msg, "loc": loc, "thread": thread});
+      if let Ok(g) = PANIC_FILE.lock() {
+        if let Some(path) = g.as_ref() {
+          if let Ok(mut f) = std::fs::OpenOptions::new().create(true).append(true).open(path) {
+            let _ = writeln!(f, "{}", rec);
+          }
+        }
+      }
+      if let Ok(mut g) = PANICS.lock() {
+        if g.len() < 1000 {
+          g.push(rec);
+        }
+      }
+      previous(info);
+    }));
+  });
+}
+
+fn free_port(host: &str) -> Result<u16, String> {
+  let l = TcpListener::bind((host, 0)).map_err(|e| format!("cannot bind {}:0: {}", host, e))?;
+  let p = l.local_addr().map_err(|e| e.to_string())?.port();
+  drop(l);
+  Ok(p)
+}
+
+pub fn op_serve(case: &J) -> J {
+  let host = case.get("host").and_then(|v| v.as_str()).unwrap_or("127.0.0.1").to_string();
+  let ready_file = case.get("ready_file").and_then(|v| v.as_str()).unwrap_or("").to_string();
+  let stop_file = case.get("stop_file").and_then(|v| v.as_str()).unwrap_or("").to_string();
+  let max_seconds = case.get("max_seconds").and_then(|v| v.as_u64()).unwrap_or(600);
+  if ready_file.is_empty() || stop_file.is_empty() {
+    return json!({"harness_error": "serve needs ready_file and stop_file"});
+  }
+  if let Ok(mut g) = PANIC_FILE.lock() {
+    *g = case.get("panic_file").and_then(|v| v.as_str()).map(|s| s.to_string());
+  }
+  install_hook();
+  let mut port = case.get("port").and_then(|v| v.as_u64()).unwrap_or(0) as u16;
+  if port == 0 {
+    port = match free_port(&host) {
+      Ok(p) => p,
+      Err(e) => return json!({ "harness_error": e }),
+    };
+  }
+  let ended = Arc::new(AtomicBool::new(false));
+  let result: Arc<Mutex<Option<String>>> = Arc::new(Mutex::new(None));
+  {
+    let ended = Arc::clone(&ended);
+    let result = Arc::clone(&result);
+    let host = host.clone();
+    let spawned = std::thread::Builder::new().name("verif-server".to_string()).spawn(move || {
+      let mut system = actix_web::rt::System::new("verif-server");
+      let r = system.block_on(dmntk_server::start_server(Some(host), Some(port.to_string()), None));
+      if let Ok(mut g) = result.lock() {
+        *g = Some(match r {
+          Ok(()) => "ok".to_string(),
+          Err(e) => format!("error: {}", e),
+        });
+      }
+      ended.store(true, Ordering::SeqCst);
+    });
+    if let Err(e) = spawned {
+      return json!({"harness_error": format!("cannot spawn server thread: {}", e)});
+    }
+  }
+  // wait until the service accepts connections
+  let t0 = Instant::now();
+  let mut up = false;
+  while t0.elapsed() < Duration::from_secs(30) {
+    if ended.load(Ordering::SeqCst) {
+      break;
+    }
+    if TcpStream::connect((host.as_str(), port)).is_ok() {
+      up = true;
+      break;
+    }
+    std::thread::sleep(Duration::from_millis(20));
+  }
+  if !up {
+    let r = result.lock().ok().and_then(|g| g.clone());
+    return json!({"harness_error": format!("service did not come up on {}:{} (server result: {:?})", host, port, r)});
+  }
+  let workers = std::thread::available_parallelism().map(|n| n.get()).unwrap_or(1);
+  let tmp = format!("{}.tmp", ready_file);
+  if std::fs::write(&tmp, json!({"port": port, "pid": std::process::id(), "workers": workers}).to_string()).is_err() || std::fs::rename(&tmp, &ready_file).is_err() {
+    return json!({"harness_error": "cannot write ready file"});
+  }
+  let parent = std::os::unix::process::parent_id();
+  let stopped;
+  loop {
+    if std::path::Path::new(&stop_file).exists() {
+      stopped = "stop-file";
+      break;
+    }
+    if ended.load(Ordering::SeqCst) {
+      stopped = "server-ended";
+      break;
+    }
+    if t0.elapsed() > Duration::from_secs(max_seconds) {
+      stopped = "deadline";
+      break;
+    }
+    if std::os::unix::process::parent_id() != parent {
+      // the supervisor went away: do not leave a service behind
+      std::process::exit(0);
+    }
+    std::thread::sleep(Duration::from_millis(25));
+  }
+  let panics = PANICS.lock().map(|g| g.clone()).unwrap_or_default();
+  let server_result = result.lock().ok().and_then(|g| g.clone());
+  json!({"port": port, "stopped": stopped, "server_result": server_result, "panics": panics, "workers": workers})
 }
